@@ -16,7 +16,8 @@ Inductive ptok :=
 | KLock | KTestSet | KIfClear | KEnqueueIn | KNotifyIn | KEnqueueOut | KNotifyOut | KUnlockEarly
 | KDequeue | KClearFlag
 | KIsEmptyRet | KRegister | KLoop | KBudgetSelfWake | KBudgetNoWake | KPop | KEmptyPending
-| KInconsSelfWake | KInconsNoWake | KChildPoll.
+| KInconsSelfWake | KInconsNoWake | KChildPoll
+| KDecStrong | KDropInner | KIncStrong | KRawWrite | KCallWakeByRef | KCallDropWaker.
 
 Definition ptok_eqb (a b : ptok) : bool :=
   match a, b with
@@ -25,7 +26,9 @@ Definition ptok_eqb (a b : ptok) : bool :=
   | KDequeue, KDequeue | KClearFlag, KClearFlag
   | KIsEmptyRet, KIsEmptyRet | KRegister, KRegister | KLoop, KLoop | KBudgetSelfWake, KBudgetSelfWake
   | KBudgetNoWake, KBudgetNoWake | KPop, KPop | KEmptyPending, KEmptyPending
-  | KInconsSelfWake, KInconsSelfWake | KInconsNoWake, KInconsNoWake | KChildPoll, KChildPoll => true
+  | KInconsSelfWake, KInconsSelfWake | KInconsNoWake, KInconsNoWake | KChildPoll, KChildPoll
+  | KDecStrong, KDecStrong | KDropInner, KDropInner | KIncStrong, KIncStrong | KRawWrite, KRawWrite
+  | KCallWakeByRef, KCallWakeByRef | KCallDropWaker, KCallDropWaker => true
   | _, _ => false
   end.
 
@@ -45,3 +48,15 @@ Definition poll_model : list ptok :=
 
 Definition protocol_matches (wake push pop poll : list ptok) : bool :=
   toks_eqb wake wake_by_ref_model && toks_eqb push push_model && toks_eqb pop pop_model && toks_eqb poll poll_model.
+
+(** the owners' side of the reference count, as ConcRefcount.v assumes it: a clone is one
+    increment; dropping the collection's handle or a waker is one decrement and the owner that
+    took the count to 0 releases the block — and does nothing else to the shared block (no raw
+    write into the header); [wake] by value is [wake_by_ref] followed by the drop *)
+Definition drop_list_model : list ptok := [KDecStrong; KDropInner].
+Definition drop_waker_model : list ptok := [KDecStrong; KDropInner].
+Definition clone_waker_model : list ptok := [KIncStrong].
+Definition wake_model : list ptok := [KCallWakeByRef; KCallDropWaker].
+
+Definition refcount_protocol_matches (dl dw cl wk : list ptok) : bool :=
+  toks_eqb dl drop_list_model && toks_eqb dw drop_waker_model && toks_eqb cl clone_waker_model && toks_eqb wk wake_model.
